@@ -21,7 +21,7 @@ import ast
 import copy
 from typing import Optional
 
-PURE_CALLS = {'len', 'list', 'tuple', 'set', 'frozenset', 'isinstance', 'max', 'min', 'id', 'sorted', 'reversed', 'range', 'abs'}
+PURE_CALLS = {'len', 'list', 'tuple', 'set', 'frozenset', 'isinstance', 'max', 'min', 'id', 'sorted', 'reversed', 'range', 'abs', 'type'}
 
 
 def _names(node: ast.AST, ctx_type: type) -> list[str]:
